@@ -18,6 +18,7 @@ EXPLANATION = (
     "SW5 select_weighted/5 starts the chain with the total sum_list(Weights,Total), Total > 0, sw(ID,Total,Weights,Values,Value,Rest); select_weighted/4 "
     "unzips the pairs and delegates with the arguments in order; SW6 select_uniform/4 uses Weight is 1/Len for Len = length(Values), builds Len copies "
     "and delegates to select_weighted/5 with the same ID, Values, Value, Rest."
+    " Added after seed round 10: SW7 unzip/3 is the front-to-back split (an accumulator version without reverse is reported; any other shape is no verdict)."
 )
 TECHNIQUE = "static analysis: clause-template rules over the Prolog library text (variables compared by position, not by name)"
 LEVEL_TEXT = EXPLANATION
@@ -69,6 +70,7 @@ def run(repo, col):
     col.rule("SW4", "skip clause: negation of the same fact, remaining mass PW-W, element kept in order")
     col.rule("SW5", "select_weighted/5,4 start the chain with the total weight")
     col.rule("SW6", "select_uniform/4 delegates with weight 1/Len")
+    col.rule("SW7", "unzip/3 keeps the order of the pairs")
     text = repo.text(PL)
     cls = plreader.clauses(text)
     mod = repo.module("problog")
@@ -282,3 +284,29 @@ def run(repo, col):
         decide("SW6", "make_list/3", okb and okr, "make_list(N,X,L) builds N copies of X", "make_list/3 must build exactly Len copies of the weight: make_list(0,_,[]) and make_list(N,X,[X|L]) :- N > 0, N1 is N-1, make_list(N1,X,L)")
     else:
         raise AnalysisError("lists.pl: make_list/3 not found")
+    # SW7: unzip/3, which select_weighted/4 splits its pairs with, keeps the order of the list
+    uz = by.get(("unzip", 3), [])
+    if not uz:
+        raise AnalysisError("lists.pl: unzip/3 not found")
+    base = [c for c in uz if not c[2]]
+    recs = [c for c in uz if c[2]]
+    canonical = False
+    if len(base) == 1 and len(recs) == 1 and base[0][1] == ["[]", "[]", "[]"]:
+        _, a, g, _ = recs[0]
+        mp = re.match(r"^\[\((%s),(%s)\)\|(%s)\]$" % (VAR, VAR, VAR), a[0])
+        c1, c2 = _cons(a[1]), _cons(a[2])
+        if mp and c1 and c2:
+            x, y, t = mp.groups()
+            canonical = c1[0] == x and c2[0] == y and g == ["unzip(%s,%s,%s)" % (t, c1[1], c2[1])] and len({x, y, t, c1[1], c2[1]}) == 5
+    if canonical:
+        ok("SW7", "unzip/3", "unzip/3 splits the list of pairs front to back: both results keep the order of the pairs")
+    else:
+        # an accumulator version reverses both lists unless it reverses them back
+        all_goals = [g_ for k_, v_ in by.items() if k_[0] == "unzip" for c_ in v_ for g_ in c_[2]]
+        acc = [c_ for k_, v_ in by.items() if k_[0] == "unzip" and k_[1] > 3 for c_ in v_ if any(re.match(r"^unzip\(.*\[%s\|%s\].*\)$" % (VAR, VAR), g_) for g_ in c_[2])]
+        if acc and not any(g_.startswith("reverse(") for g_ in all_goals):
+            fail("SW7", "unzip/3", "unzip/3 collects the components in accumulators (unzip/%d conses onto its arguments in the recursive call) and never reverses them: select_weighted/4 "
+                 "then passes reversed weight and value lists on, each element is still chosen with w/sum but the rest comes back reversed - [(2,a),(1,b),(1,c)] yields "
+                 "q(a,[c,b]) instead of q(a,[b,c]), and with equal elements the outcome probabilities are swapped" % max(k_[1] for k_ in by if k_[0] == "unzip"))
+        else:
+            raise AnalysisError("lists.pl: unzip/3 has a shape this rule does not model")
